@@ -140,7 +140,10 @@ NowContents == {ws[p].c : p \in AllTargets \cap DOMAIN ws} \cup {cache[n].c : n 
 \* sources, and (at a crash instant) the targets of the command that was running
 ExemptContents == {Pre.ws[p].c : p \in {q \in AllTargets \cap DOMAIN Pre.ws : RulesSane /\ Tainted(q)}}
                   \cup (IF ev.a = "crash" /\ Has(ev, "inexec") /\ KnownRid(ev.inexec)
-                        THEN {Pre.ws[p].c : p \in SeqSet(RuleById(ev.inexec).tg) \cap DOMAIN Pre.ws} ELSE {})
+                        THEN {Pre.ws[p].c : p \in SeqSet(RuleById(ev.inexec).tg) \cap DOMAIN Pre.ws}
+                             \cup {x[2] : x \in {y \in g.tk \cup (IF Has(ev, "taken") THEN SeqSet(ev.taken) ELSE {}) :
+                                                     y[1] \in SeqSet(RuleById(ev.inexec).tg)}}     \* what ruler had just restored there
+                        ELSE {})
 \* the property assumes deterministic commands: an invocation in which a command with an undeclared input ran is not judged
 NonDetRan == \E x \in g.execs : KnownRid(x.rid) /\ RuleById(x.rid).mask # <<>>
 C08_NothingLost ==
